@@ -433,7 +433,8 @@ def run(seed=0, rounds=400):
     print('AXIOMS ' + json.dumps(dict(rounds=rounds, failures=fails[:5])))
     ok_sets = run_sets(seed)
     ok_ev = evaluable_nodes(seed)
-    return not fails and ok_sets and ok_ev
+    ok_c12b = run_c12b(seed)
+    return not fails and ok_sets and ok_ev and ok_c12b
 
 
 def run_sets(seed=0, rounds=300):
@@ -522,3 +523,52 @@ def _random_entry(rng):
 def _same(a, b):
     import pickle
     return pickle.dumps(a) == pickle.dumps(b)
+
+
+def run_c12b(seed=0, rounds=300):
+    """externals added for the second C12 round (contracts/C12_inverse.py, C12_ctor.py): vectorised searchsorted, arr[mask] in order,
+    concatenate (element set; ValueError for an empty list), reduce(add.outer).ravel() in row-major multi-index form, diff, and the
+    copy semantics of numpy results (pyvc/nparr.py: a result does not change when an operand is stored into later)."""
+    import functools
+    rng = numpy.random.RandomState(seed)
+    fails = []
+    for _ in range(rounds):
+        n = rng.randint(0, 7)
+        a = numpy.sort(rng.randint(-3, 4, size=n))
+        v = rng.randint(-4, 5, size=rng.randint(0, 5))
+        for side in ('left', 'right'):
+            p = numpy.searchsorted(a, v, side=side)
+            ok = len(p) == len(v) and all(0 <= p[k] <= n and ((a[:p[k]] < v[k]).all() if side == 'left' else (a[:p[k]] <= v[k]).all())
+                                          and ((a[p[k]:] >= v[k]).all() if side == 'left' else (a[p[k]:] > v[k]).all()) for k in range(len(v)))
+            if not ok:
+                fails.append(('searchsorted-vector-' + side, a.tolist(), v.tolist(), p.tolist()))
+        x = rng.randint(-5, 6, size=n)
+        m = rng.randint(0, 2, size=n).astype(bool)
+        if x[m].tolist() != [x[i] for i in range(n) if m[i]]:
+            fails.append(('mask-selection-in-order', x.tolist(), m.tolist()))
+        items = [rng.randint(-3, 4, size=rng.randint(0, 4)) for _ in range(rng.randint(1, 4))]
+        c = numpy.concatenate(items)
+        if set(c.tolist()) != set(t for it in items for t in it.tolist()):
+            fails.append(('concatenate-element-set', [it.tolist() for it in items], c.tolist()))
+        axes = [rng.randint(-3, 4, size=rng.randint(0, 4)) for _ in range(rng.randint(1, 4))]
+        r = numpy.asarray(functools.reduce(numpy.add.outer, axes).ravel(), dtype=int)
+        want = [sum(int(ax[i]) for ax, i in zip(axes, idx)) for idx in numpy.ndindex(*[len(ax) for ax in axes])]
+        if r.tolist() != want:
+            fails.append(('add-outer-ravel-row-major', [ax.tolist() for ax in axes], r.tolist()))
+        if n and numpy.diff(x).tolist() != [int(x[i + 1] - x[i]) for i in range(n - 1)]:
+            fails.append(('diff', x.tolist()))
+        if n:
+            idx = rng.randint(0, n, size=3)
+            taken, cmpd, summed = x[idx], numpy.equal(x, x[0]), x + 1
+            before = (taken.tolist(), cmpd.tolist(), summed.tolist())
+            x[:] = 99
+            idx[:] = 0
+            if (taken.tolist(), cmpd.tolist(), summed.tolist()) != before:
+                fails.append(('results-are-copies', before))
+    try:
+        numpy.concatenate([])
+        fails.append(('concatenate-empty-raises-ValueError',))
+    except ValueError:
+        pass
+    print('AXIOMS-C12B ' + json.dumps(dict(rounds=rounds, failures=fails[:5])))
+    return not fails
